@@ -155,6 +155,9 @@ func (sessionStream) Generate(rng *rand.Rand, n int, thorough bool) []Case {
 		if rng.Intn(4) == 0 {
 			mode += "+tls"
 		}
+		if rng.Intn(4) == 0 {
+			mode += "+late" // the routes are registered when the client is already connected
+		}
 		// ending
 		var tail []byte
 		ending := rng.Intn(6)
@@ -444,53 +447,62 @@ func (sessionStream) Impl(c Case) string {
 	}
 	var mu sync.Mutex
 	var calls []string
-	for i, spec := range routes {
-		idx := i
-		h := func(w *gldap.ResponseWriter, r *gldap.Request) {
-			mu.Lock()
-			calls = append(calls, fmt.Sprintf("%d:%d", idx, r.VerifMessage().GetID()))
-			mu.Unlock()
-			if scripts[idx] == "." {
-				return
+	register := func() string {
+		for i, spec := range routes {
+			idx := i
+			h := func(w *gldap.ResponseWriter, r *gldap.Request) {
+				mu.Lock()
+				calls = append(calls, fmt.Sprintf("%d:%d", idx, r.VerifMessage().GetID()))
+				mu.Unlock()
+				if scripts[idx] == "." {
+					return
+				}
+				for _, d := range strings.Split(scripts[idx], "+") {
+					x := strings.Split(d, "~")
+					rc := respCase{ctor: x[0], dn: string(unhx(x[1]))}
+					if x[2] != "" {
+						rc.opts = strings.Split(x[2], ";")
+					}
+					if x[3] != "" {
+						rc.sets = strings.Split(x[3], ";")
+					}
+					_ = w.Write(scriptedResponse(r, rc))
+				}
 			}
-			for _, d := range strings.Split(scripts[idx], "+") {
-				x := strings.Split(d, "~")
-				rc := respCase{ctor: x[0], dn: string(unhx(x[1]))}
-				if x[2] != "" {
-					rc.opts = strings.Split(x[2], ";")
-				}
-				if x[3] != "" {
-					rc.sets = strings.Split(x[3], ";")
-				}
-				_ = w.Write(scriptedResponse(r, rc))
+			sp := strings.Split(spec, ":")
+			switch sp[0] {
+			case "b":
+				err = mux.Bind(h)
+			case "s":
+				sc, _ := strconv.Atoi(sp[3])
+				err = mux.Search(h, gldap.WithBaseDN(string(unhx(sp[1]))), gldap.WithFilter(string(unhx(sp[2]))), gldap.WithScope(gldap.Scope(sc)))
+			case "e":
+				err = mux.ExtendedOperation(h, gldap.ExtendedOperationName(unhx(sp[1])))
+			case "m":
+				err = mux.Modify(h)
+			case "a":
+				err = mux.Add(h)
+			case "d":
+				err = mux.Delete(h)
+			case "D":
+				err = mux.DefaultRoute(h)
+			case "U":
+				err = mux.Unbind(h)
+			}
+			if err != nil {
+				return "err register"
 			}
 		}
-		sp := strings.Split(spec, ":")
-		switch sp[0] {
-		case "b":
-			err = mux.Bind(h)
-		case "s":
-			sc, _ := strconv.Atoi(sp[3])
-			err = mux.Search(h, gldap.WithBaseDN(string(unhx(sp[1]))), gldap.WithFilter(string(unhx(sp[2]))), gldap.WithScope(gldap.Scope(sc)))
-		case "e":
-			err = mux.ExtendedOperation(h, gldap.ExtendedOperationName(unhx(sp[1])))
-		case "m":
-			err = mux.Modify(h)
-		case "a":
-			err = mux.Add(h)
-		case "d":
-			err = mux.Delete(h)
-		case "D":
-			err = mux.DefaultRoute(h)
-		case "U":
-			err = mux.Unbind(h)
-		}
-		if err != nil {
-			return "err register"
+		return ""
+	}
+	late := strings.Contains(mode, "+late")
+	if !late {
+		if e := register(); e != "" {
+			return e
 		}
 	}
 	var tlsc, ctls *tls.Config
-	if strings.HasSuffix(mode, "+tls") {
+	if strings.Contains(mode, "+tls") {
 		tlsConfigs()
 		tlsc, ctls = srvTLS, cliTLS
 	}
@@ -511,6 +523,16 @@ func (sessionStream) Impl(c Case) string {
 		return "err dial: " + err.Error()
 	}
 	defer cl.close()
+	if late {
+		// the connection exists (its goroutine has started) before the first route is registered
+		deadline := time.Now().Add(5 * time.Second)
+		for sut.tr.Count("conn.start", 1) == 0 && time.Now().Before(deadline) {
+			time.Sleep(200 * time.Microsecond)
+		}
+		if e := register(); e != "" {
+			return e
+		}
+	}
 
 	// reader: everything the server sends until it closes the connection
 	type rd struct {
